@@ -152,6 +152,27 @@ pub fn inject_extras(s: &mut Src, g: &G) -> (G, bool) {
             *e = E::Seq(vec![old, used]);
         }
     }
+    // a built-in name specialised for some shells only: the others keep the built-in meaning (no warning)
+    if s.chance(1, 3) {
+        let name = s.pick(&["PATH", "DIRECTORY"]).to_string();
+        let mut any = false;
+        for sh in SH {
+            if s.chance(1, 3) {
+                any = true;
+                let pos = s.below(g.stmts.len() + 1);
+                g.stmts.insert(pos, Stmt::Def { name: name.clone(), shell: Some(sh.to_string()), e: E::Cmd(format!("files_{sh}")) });
+            }
+        }
+        if any && s.chance(3, 4) {
+            let used = if s.bool() { nt(&name) } else { E::Word(vec![lit("--file="), nt(&name)]) };
+            let calls: Vec<usize> = g.stmts.iter().enumerate().filter(|(_, st)| matches!(st, Stmt::Call { .. })).map(|(i, _)| i).collect();
+            let ci = calls[s.below(calls.len())];
+            if let Stmt::Call { e, .. } = &mut g.stmts[ci] {
+                let old = e.clone();
+                *e = E::Seq(vec![old, used]);
+            }
+        }
+    }
     // a plain definition next to a specialisation of a name the call variants use (the plain one is not unused)
     if s.chance(1, 3) {
         let name = "BOTH".to_string();
